@@ -3,14 +3,18 @@ C10 — executable model of lib/efuns/call_out.c (timing wheel of delta-encoded 
 
 Mirrors, line by line:
   new_call_out            -> `newCallOut`   (slot = (delay+now) & (N-1), rotations, ordered insert with delta split)
-  call_out                -> `sweep`        (per-second loop, head `--delta == 0`, do/while over zero deltas,
-                                             destructed-owner drop, per-callback recovery that continues the sweep)
+  call_out                -> `sweep`        (per-second loop, `call_out_time++` first, head `--delta == 0`, do/while over
+                                             zero deltas, destructed-owner drop, per-callback recovery that continues
+                                             the sweep)
   time_left               -> `timeLeft`
   remove_call_out[_by_handle], find_call_out[_by_handle], remove_all_call_out, get_all_call_outs
 
 C integers: `delta`/`delay` are `time_t` (signed) -> `Int`; slots use `&&&` exactly as the C code does.
 Callbacks into LPC are an oracle: `Scripts` maps (owner, tag) to the list of operations the callback performs
 (the correspondence harness installs the same scripts in the real objects).
+
+The model emits *structured events* (`Ev`); `render` (Drive.lean) prints them in the canonical text of the harness.
+`Call.due` is a ghost field (the absolute second the call_out is meant for); no decision of the model reads it.
 -/
 import NV.Gen.C10
 
@@ -22,14 +26,58 @@ abbrev N : Nat := NV.Gen.C10.calloutCycleSize
 /-- virtual epoch used by the harness (VH_T0) -/
 def T0 : Nat := 1000000000
 
-structure Entry where
+/-- observable events: the canonical output lines of the harness / the model, as data.
+    `t` is always the virtual time `current_time - T0` at which the line was printed. -/
+inductive Ev where
+  | tickbegin (t : Int)
+  | tickend (t : Int)
+  /-- `h = call_out("co<fn>", d, tag)` by object `o` -/
+  | co (t : Int) (o fn : Nat) (d : Int) (tag : String) (h : Int)
+  /-- the call_out `co<fn>(tag)` of object `o` runs -/
+  | fire (t : Int) (o fn : Nat) (tag : String)
+  /-- `r = remove_call_out(handle of tag)` -/
+  | rmh (t : Int) (o : Nat) (tag : String) (r : Int)
+  /-- `r = find_call_out(handle of tag)` -/
+  | fh (t : Int) (o : Nat) (tag : String) (r : Int)
+  /-- `r = remove_call_out("co<fn>")` -/
+  | rmn (t : Int) (o fn : Nat) (r : Int)
+  /-- `r = find_call_out("co<fn>")` -/
+  | fnm (t : Int) (o fn : Nat) (r : Int)
+  /-- `remove_call_out()` (all of `o`) -/
+  | rmall (t : Int) (o : Nat)
+  /-- `o` destructs `x` -/
+  | dest (t : Int) (o x : Nat)
+  /-- `call_out_info()`: sorted rows (owner, fn, time left) -/
+  | info (t : Int) (rows : List (Nat × Nat × Int))
+  /-- `error("boom")` raised by `o` -/
+  | err (o : Nat)
+  /-- a top-level apply ended with an error -/
+  | opErr (o : Nat)
+  /-- a top-level apply on a destructed object -/
+  | opDestructed (o : Nat)
+  | setScriptDestructed (o : Nat)
+  /-- only produced by the line parser (implementation traces): ignorable line -/
+  | note (line : String)
+  | crash (line : String)
+  | sanitizer (line : String)
+  | malformed (line : String)
+  | unexpected (line : String)
+  deriving Repr, DecidableEq
+
+/-- everything in a `pending_call_t` except `delta` -/
+structure Call where
   serial : Nat            -- value of `unique` at creation (ghost identity)
   owner : Nat             -- object id
   fn : Nat                -- function "co<fn>"
   tag : String            -- the single argument
-  delta : Int             -- pending_call_t.delta
   handle : Nat            -- slot + N * serial
-  deriving Repr, BEq, DecidableEq
+  due : Int               -- GHOST: current_time + max delay 1 at creation
+  deriving Repr, DecidableEq
+
+structure Entry where
+  delta : Int             -- pending_call_t.delta
+  c : Call
+  deriving Repr, DecidableEq
 
 /-- operations an object can perform (top level or inside a call_out callback) -/
 inductive Op where
@@ -42,7 +90,7 @@ inductive Op where
   | dest (target : Nat)                         -- destruct(target)
   | err                                         -- error("boom")
   | info                                        -- call_out_info()
-  deriving Repr, BEq
+  deriving Repr, DecidableEq
 
 structure World where
   slots : Nat → List Entry
@@ -51,7 +99,7 @@ structure World where
   unique : Nat
   dead : List Nat                               -- destructed objects
   hmap : List ((Nat × String) × Nat)            -- per object: tag -> handle (LPC variable `handles`)
-  out : List String                             -- canonical output, newest first
+  out : List Ev                                 -- events, newest first
 
 /-- scripts: what the callback of (owner, tag) does -/
 abbrev Scripts := Nat → String → List Op
@@ -62,7 +110,7 @@ def World.init : World :=
 def setSlot (w : World) (s : Nat) (l : List Entry) : World :=
   { w with slots := fun i => if i = s then l else w.slots i }
 
-def emit (w : World) (s : String) : World := { w with out := s :: w.out }
+def emit (w : World) (e : Ev) : World := { w with out := e :: w.out }
 
 def vnow (w : World) : Int := (w.now : Int) - (T0 : Int)
 
@@ -70,12 +118,12 @@ def isDead (w : World) (o : Nat) : Bool := w.dead.contains o
 
 /-- ordered insert of new_call_out: walk the list subtracting deltas; insert before the first element whose
     delta is >= the remaining delay and reduce that element's delta -/
-def insertDelta (l : List Entry) (delay : Int) (e : Entry) : List Entry :=
+def insertDelta (l : List Entry) (delay : Int) (c : Call) : List Entry :=
   match l with
-  | [] => [{ e with delta := delay }]
+  | [] => [{ delta := delay, c := c }]
   | x :: xs =>
-    if x.delta ≥ delay then { e with delta := delay } :: { x with delta := x.delta - delay } :: xs
-    else x :: insertDelta xs (delay - x.delta) e
+    if x.delta ≥ delay then { delta := delay, c := c } :: { x with delta := x.delta - delay } :: xs
+    else x :: insertDelta xs (delay - x.delta) c
 
 /-- C: `(x) & (CALLOUT_CYCLE_SIZE - 1)` -/
 def slotOf (t : Nat) : Nat := t &&& (N - 1)
@@ -89,9 +137,9 @@ def newCallOut (w : World) (owner fn : Nat) (tag : String) (delay : Int) : World
   let rot : Int := 1 + Int.tdiv (due - (cot : Int) - 1) (N : Int)
   let uniq := w.unique + 1
   let h := tm + N * uniq
-  let e : Entry := { serial := uniq, owner := owner, fn := fn, tag := tag, delta := 0, handle := h }
+  let c : Call := { serial := uniq, owner := owner, fn := fn, tag := tag, handle := h, due := due }
   let w1 := { w with cot := cot, unique := uniq }
-  (setSlot w1 tm (insertDelta (w1.slots tm) rot e), h)
+  (setSlot w1 tm (insertDelta (w1.slots tm) rot c), h)
 
 /-- time_left(slot, delay) -/
 def timeLeft (w : World) (slot : Nat) (delay : Int) : Int :=
@@ -100,11 +148,11 @@ def timeLeft (w : World) (slot : Nat) (delay : Int) : Int :=
   else delay * (N : Int) + ((slot : Int) - (cur : Int)) + (w.cot : Int) - (w.now : Int)
 
 /-- search one list for the first entry satisfying `p`; returns (cumulative delta, list without it) -/
-def removeFirst (p : Entry → Bool) (l : List Entry) (acc : Int) : Option (Int × List Entry) :=
+def removeFirst (p : Call → Bool) (l : List Entry) (acc : Int) : Option (Int × List Entry) :=
   match l with
   | [] => none
   | x :: xs =>
-    if p x then
+    if p x.c then
       some (acc + x.delta,
         match xs with
         | [] => []
@@ -112,51 +160,49 @@ def removeFirst (p : Entry → Bool) (l : List Entry) (acc : Int) : Option (Int 
     else
       match removeFirst p xs (acc + x.delta) with
       | none => none
-      | some (d, xs') => some (d, x :: xs')
+      | some r => some (r.1, x :: r.2)
 
-def findFirst (p : Entry → Bool) (l : List Entry) (acc : Int) : Option Int :=
+def findFirst (p : Call → Bool) (l : List Entry) (acc : Int) : Option Int :=
   match l with
   | [] => none
-  | x :: xs => if p x then some (acc + x.delta) else findFirst p xs (acc + x.delta)
+  | x :: xs => if p x.c then some (acc + x.delta) else findFirst p xs (acc + x.delta)
+
+/-- `for (i = 0; i < CALLOUT_CYCLE_SIZE; i++)`: first slot (from `i`, at most `fuel` of them) where `f` succeeds -/
+def scanFrom {α : Type} (f : Nat → Option α) : Nat → Nat → Option (Nat × α)
+  | 0, _ => none
+  | fuel + 1, i =>
+    match f i with
+    | some a => some (i, a)
+    | none => scanFrom f fuel (i + 1)
 
 /-- remove_call_out(ob, fun): slots are scanned in index order -/
 def removeByName (w : World) (owner fn : Nat) : World × Int :=
-  let rec go (fuel i : Nat) : World × Int :=
-    match fuel with
-    | 0 => (w, -1)
-    | fuel + 1 =>
-      match removeFirst (fun e => e.owner == owner && e.fn == fn) (w.slots i) 0 with
-      | some (d, l') => (setSlot w i l', timeLeft w i d)
-      | none => go fuel (i + 1)
-  go N 0
+  match scanFrom (fun i => removeFirst (fun c => c.owner == owner && c.fn == fn) (w.slots i) 0) N 0 with
+  | some (i, r) => (setSlot w i r.2, timeLeft w i r.1)
+  | none => (w, -1)
 
 def findByName (w : World) (owner fn : Nat) : Int :=
-  let rec go (fuel i : Nat) : Int :=
-    match fuel with
-    | 0 => -1
-    | fuel + 1 =>
-      match findFirst (fun e => e.owner == owner && e.fn == fn) (w.slots i) 0 with
-      | some d => timeLeft w i d
-      | none => go fuel (i + 1)
-  go N 0
+  match scanFrom (fun i => findFirst (fun c => c.owner == owner && c.fn == fn) (w.slots i) 0) N 0 with
+  | some (i, d) => timeLeft w i d
+  | none => -1
 
 def removeByHandle (w : World) (h : Nat) : World × Int :=
   let s := slotOf h
-  match removeFirst (fun e => e.handle == h) (w.slots s) 0 with
-  | some (d, l') => (setSlot w s l', timeLeft w s d)
+  match removeFirst (fun c => c.handle == h) (w.slots s) 0 with
+  | some r => (setSlot w s r.2, timeLeft w s r.1)
   | none => (w, -1)
 
 def findByHandle (w : World) (h : Nat) : Int :=
   let s := slotOf h
-  match findFirst (fun e => e.handle == h) (w.slots s) 0 with
+  match findFirst (fun c => c.handle == h) (w.slots s) 0 with
   | some d => timeLeft w s d
   | none => -1
 
 /-- remove every entry satisfying p from one list, folding its delta into the successor -/
-def removeAllList (p : Entry → Bool) : List Entry → List Entry
+def removeAllList (p : Call → Bool) : List Entry → List Entry
   | [] => []
   | x :: xs =>
-    if p x then
+    if p x.c then
       match xs with
       | [] => []
       | y :: ys => removeAllList p ({ y with delta := y.delta + x.delta } :: ys)
@@ -165,28 +211,25 @@ termination_by l => l.length
 
 /-- remove_all_call_out(obj): entries of obj and of any destructed object -/
 def removeAll (w : World) (owner : Nat) : World :=
-  { w with slots := fun i => removeAllList (fun e => e.owner == owner || w.dead.contains e.owner) (w.slots i) }
+  { w with slots := fun i => removeAllList (fun c => c.owner == owner || w.dead.contains c.owner) (w.slots i) }
 
 def lookupHandle (w : World) (owner : Nat) (tag : String) : Nat :=
   match w.hmap.find? (fun p => p.1 == (owner, tag)) with
   | some p => p.2
   | none => 0
 
-/-- get_all_call_outs, canonicalised like the LPC side does: sorted rows "<oid>/<fn>/<delay>" -/
+/-- the inner loop of get_all_call_outs over one list: rows (owner, fn, time left) of live owners -/
+def infoRowsList (w : World) (j : Nat) : List Entry → Int → List (Nat × Nat × Int)
+  | [], _ => []
+  | x :: xs, acc =>
+    let d := acc + x.delta
+    let rest := infoRowsList w j xs d
+    if w.dead.contains x.c.owner then rest
+    else (x.c.owner, x.c.fn, timeLeft w j d) :: rest
+
+/-- get_all_call_outs (the C code repeats the body of time_left inline) -/
 def infoRows (w : World) : List (Nat × Nat × Int) :=
-  let tm := slotOf w.cot
-  let rec rows (j : Nat) (l : List Entry) (acc : Int) : List (Nat × Nat × Int) :=
-    match l with
-    | [] => []
-    | x :: xs =>
-      let d := acc + x.delta
-      let rest := rows j xs d
-      if w.dead.contains x.owner then rest
-      else
-        let v : Int := if j > tm then (d - 1) * (N : Int) + ((j : Int) - (tm : Int)) + (w.cot : Int) - (w.now : Int)
-                       else d * (N : Int) + ((j : Int) - (tm : Int)) + (w.cot : Int) - (w.now : Int)
-        (x.owner, x.fn, v) :: rest
-  (List.range N).flatMap (fun j => rows j (w.slots j) 0)
+  (List.range N).flatMap (fun j => infoRowsList w j (w.slots j) 0)
 
 def rowLt (a b : Nat × Nat × Int) : Bool :=
   a.1 < b.1 || (a.1 == b.1 && (a.2.1 < b.2.1 || (a.2.1 == b.2.1 && a.2.2 < b.2.2)))
@@ -195,6 +238,7 @@ def insertSorted (x : Nat × Nat × Int) : List (Nat × Nat × Int) → List (Na
   | [] => [x]
   | y :: ys => if rowLt y x then y :: insertSorted x ys else x :: y :: ys
 
+/-- canonicalisation done by the LPC side of the harness (sort_array) -/
 def sortRows (l : List (Nat × Nat × Int)) : List (Nat × Nat × Int) := l.foldr insertSorted []
 
 /-- result of running one operation: new world, `true` if an LPC error was raised,
@@ -204,41 +248,36 @@ structure StepRes where
   err : Bool := false
   stop : Bool := false
 
-def pre (w : World) : String := toString (vnow w)
-
 /-- one operation executed by object `self` -/
 def stepOp (w : World) (self : Nat) (op : Op) : StepRes :=
   match op with
   | .co fn delay tag =>
     if isDead w self then
       let w := { w with hmap := ((self, tag), 0) :: w.hmap }
-      { w := emit w s!"{pre w} r co o{self} {fn} {delay} {tag} 0" }
+      { w := emit w (.co (vnow w) self fn delay tag 0) }
     else
-      let (w, h) := newCallOut w self fn tag delay
-      let w := { w with hmap := ((self, tag), h) :: w.hmap }
-      { w := emit w s!"{pre w} r co o{self} {fn} {delay} {tag} {h}" }
+      let r := newCallOut w self fn tag delay
+      let w := { r.1 with hmap := ((self, tag), r.2) :: r.1.hmap }
+      { w := emit w (.co (vnow w) self fn delay tag (r.2 : Int)) }
   | .rmh tag =>
-    let (w, r) := removeByHandle w (lookupHandle w self tag)
-    { w := emit w s!"{pre w} r rmh o{self} {tag} {r}" }
+    let r := removeByHandle w (lookupHandle w self tag)
+    { w := emit r.1 (.rmh (vnow w) self tag r.2) }
   | .rmn fn =>
-    let (w, r) := removeByName w self fn
-    { w := emit w s!"{pre w} r rmn o{self} {fn} {r}" }
+    let r := removeByName w self fn
+    { w := emit r.1 (.rmn (vnow w) self fn r.2) }
   | .fh tag =>
-    { w := emit w s!"{pre w} r fh o{self} {tag} {findByHandle w (lookupHandle w self tag)}" }
+    { w := emit w (.fh (vnow w) self tag (findByHandle w (lookupHandle w self tag))) }
   | .fnm fn =>
-    { w := emit w s!"{pre w} r fn o{self} {fn} {findByName w self fn}" }
+    { w := emit w (.fnm (vnow w) self fn (findByName w self fn)) }
   | .rmall =>
-    let w := removeAll w self
-    { w := emit w s!"{pre w} r rmall o{self}" }
+    { w := emit (removeAll w self) (.rmall (vnow w) self) }
   | .dest t =>
     let w := if isDead w t then w else { w with dead := t :: w.dead }
-    { w := emit w s!"{pre w} r dest o{self} o{t}", stop := (t == self) }
+    { w := emit w (.dest (vnow w) self t), stop := (t == self) }
   | .err =>
-    { w := emit w s!"err *boom o{self}", err := true }
+    { w := emit w (.err self), err := true }
   | .info =>
-    let rows := sortRows (infoRows w)
-    let txt := String.join (rows.map fun r => s!" o{r.1}/co{r.2.1}/{r.2.2}")
-    { w := emit w s!"{pre w} r info{txt}" }
+    { w := emit w (.info (vnow w) (sortRows (infoRows w))) }
 
 /-- run a script; stops at the first error or self-destruct.  Returns (world, error raised) -/
 def runOps (w : World) (self : Nat) : List Op → World × Bool
@@ -249,6 +288,13 @@ def runOps (w : World) (self : Nat) : List Op → World × Bool
     else if r.stop then (r.w, false)
     else runOps r.w self rest
 
+/-- the body of the do/while of call_out() for the head `cop` just taken out of the chain -/
+def fireOne (sc : Scripts) (w : World) (cop : Entry) : World :=
+  if isDead w cop.c.owner then w
+  else
+    let w := emit w (.fire (vnow w) cop.c.owner cop.c.fn cop.c.tag)
+    (runOps w cop.c.owner (sc cop.c.owner cop.c.tag)).1
+
 /-- the do/while of call_out(): pop heads while their delta is zero -/
 def visit (sc : Scripts) (tm : Nat) : Nat → World → World
   | 0, w => w
@@ -256,18 +302,10 @@ def visit (sc : Scripts) (tm : Nat) : Nat → World → World
     match w.slots tm with
     | [] => w
     | cop :: rest =>
-      let w := setSlot w tm rest
-      let w :=
-        if isDead w cop.owner then w
-        else
-          let w := emit w s!"{pre w} fire o{cop.owner} {cop.fn} {cop.tag}"
-          (runOps w cop.owner (sc cop.owner cop.tag)).1
+      let w := fireOne sc (setSlot w tm rest) cop
       match w.slots tm with
       | [] => w
       | h :: _ => if h.delta == 0 then visit sc tm fuel w else w
-
-/-- number of entries pending in the whole wheel (fuel bound for `visit`) -/
-def wheelSize (w : World) : Nat := ((List.range N).map (fun i => (w.slots i).length)).sum
 
 /-- one second of call_out(): `cot` is advanced *before* the slot is visited (fix: C10) -/
 def sweepSecond (sc : Scripts) (w : World) : World :=
@@ -280,13 +318,14 @@ def sweepSecond (sc : Scripts) (w : World) : World :=
     let w := setSlot w tm (h' :: rest)
     if h'.delta == 0 then visit sc tm ((w.slots tm).length) w else w
 
+def sweepLoop (sc : Scripts) : Nat → World → World
+  | 0, w => w
+  | fuel + 1, w => if w.cot < w.now then sweepLoop sc fuel (sweepSecond sc w) else w
+
 /-- call_out(): `while (call_out_time < current_time)` -/
 def sweep (sc : Scripts) (w : World) : World :=
   let w := if w.cot = 0 then { w with cot := w.now } else w
-  let rec loop : Nat → World → World
-    | 0, w => w
-    | fuel + 1, w => if w.cot < w.now then loop fuel (sweepSecond sc w) else w
-  loop (w.now - w.cot) w
+  sweepLoop sc (w.now - w.cot) w
 
 /-- top-level commands of a case -/
 inductive Cmd where
@@ -299,16 +338,19 @@ inductive Cmd where
 def stepCmd (sc : Scripts) (w : World) : Cmd → World
   | .adv dt => { w with now := w.now + dt }
   | .sweep =>
-    let w := emit w s!"{pre w} tickbegin"
+    let w := emit w (.tickbegin (vnow w))
     let w := sweep sc w
-    emit w s!"{pre w} tickend"
-  | .setScript self => if isDead w self then emit w s!"r o{self} set_script !destructed" else w
+    emit w (.tickend (vnow w))
+  | .setScript self => if isDead w self then emit w (.setScriptDestructed self) else w
   | .op self op =>
-    if isDead w self then emit w s!"r o{self} do_op !destructed"
+    if isDead w self then emit w (.opDestructed self)
     else
-      let (w, e) := runOps w self [op]
-      if e then emit w s!"r o{self} do_op !err" else w
+      let r := runOps w self [op]
+      if r.2 then emit r.1 (.opErr self) else r.1
 
 def runCmds (sc : Scripts) (w : World) (cs : List Cmd) : World := cs.foldl (stepCmd sc) w
+
+/-- the observable history of a run, oldest event first -/
+def events (w : World) : List Ev := w.out.reverse
 
 end NV.C10
